@@ -30,7 +30,7 @@ pub fn check(name: &str, case: &Value, v: &Violation) -> bool {
             ms.iter().any(|closed| {
                 closed.get("additionalProperties") == Some(&Value::Bool(false))
                     && ms.iter().any(|other| {
-                        other.get("required").and_then(|r| r.as_array()).map(|r| r.iter().filter_map(|x| x.as_str()).any(|q| closed.get("properties").and_then(|p| p.get(q)).is_none())).unwrap_or(false)
+                        other.get("required").and_then(|r| r.as_array()).map(|r| r.iter().filter_map(|x| x.as_str()).any(|q| closed.get("properties").and_then(|p| p.get(q)).is_none() && other.get("properties").and_then(|p| p.get(q)).is_none())).unwrap_or(false)
                     })
             })
         }
